@@ -132,6 +132,16 @@ def gen(prop, oracle, tier):
         "two-input transformer; port a delivers tags 0.0,0.1,0.2, port b the same tags in a solver-chosen order; gather",
         Kx=1 if quick else 2,
     )
+    # a broadcast input that reaches the combinator after all the scattered elements
+    add(
+        "bcastlate_n2",
+        "g_bcast_late(e, [v0, v1, v2, v3], 2)",
+        [f"v{i}: int" for i in range(4)],
+        [],
+        1,
+        "2 elements tagged 0.i joined (dot product) with a non-scattered input that arrives at the combinator late (through two identity transformers): one arrival completes several combinations",
+        Kx=1 if quick else 2,
+    )
     # depth-2 gather (flat cross product) whose elements complete in a solver-chosen order
     add(
         "gather2_2x2",
